@@ -4,21 +4,30 @@ cycle-guarded descent of `(*Schema).validate` (openapi3/schema.go) and of the un
 (`(*Schema).IsEmpty`, `visitJSON` through compositions, `derefPaths` of internalize_refs.go).
 
 Loader, branch by branch (the ten `resolve*Ref` routines share one skeleton; `kind` says which one):
-  * `component.isEmpty()` → `errMUST…` (not for examples: `resolveExampleRef` has no such check);
+  * `component.isEmpty()` → `errMUST…` (every resolver, `resolveExampleRef` included since cbb0d05);
   * `$ref` set: `component.Value != nil` → return; text already in `visitedRefs` → register a backtrack
     callback under the TEXT (the callback asserts the kind of ITS resolver) and return; else `visitRef`;
   * reference without `#`: `loadSingleElementFromURI` (error, or a freshly decoded element);
   * else `resolveComponent`: the drill-down yields an error, a pointer of the expected wrapper type
-    (`*resolved = *cursor`; a nil pointer of that type makes `setRefPath` dereference nil), a
-    `map[string]any` (re-decoded into a fresh wrapper), or dereferences nil itself (`*SchemaRef` whose
-    `Value` is nil followed by `additionalProperties`; nil `*Paths/*Responses/*Callback`);
+    (`setPathRef(cursor)` gives the TARGET its location, then `*resolved = *cursor`), or a
+    `map[string]any` (re-decoded into a fresh wrapper). A nil pointer of the wrapper type and a nil
+    dereference inside the drill-down (`Tgt.nilPtr`, `Tgt.drillPanic`) are outcomes the drill-down of the
+    repaired code (25200f7: `isNilPointer`, `c.Value != nil`) no longer produces — they stay in the model
+    as the panics they would be, and `LoadDoc.targetOf_never_panics` proves they do not occur for the
+    configuration read from the source;
   * recursive call on the resolved wrapper; the sentinel `errMUST<own kind>` from it (raised by that wrapper
-    or by a wrapper of the same kind anywhere below it) → `return nil` BEFORE the deferred `unvisitRef` is
-    registered (the text stays in `visitedRefs`, the component stays without value);
-  * `component.Value = resolved.Value`; deferred `unvisitRef(ref, component.Value)`: when the value is
-    non-nil every callback registered under the text runs — `value.(*K)` panics when the callback was
-    registered by a resolver of another kind;
-  * then the children of the value are walked (the walk table is in `KinModel/Drv/C20.lean`).
+    or by a wrapper of the same kind anywhere below it) → `return nil` BEFORE `setRefPath` and before the
+    deferred `unvisitRef` is registered (the text stays in `visitedRefs`, the component stays without value
+    and without location); every other error, a sentinel of another kind included, travels up unchanged;
+  * `component.Value = resolved.Value; component.setRefPath(resolved.RefPath())`; deferred
+    `unvisitRef(ref, component.Value)`: when the value is non-nil every callback registered under the text
+    runs — `v, ok := value.(*K)`: a callback registered by a resolver of another kind returns without
+    assigning (a04fe6c); `Cfg.assertChecked` says per kind whether the assertion has the comma-ok form
+    (read from the source: table `C20Loader`), an unchecked one panics as before;
+  * `resolvePathItemRef` differs: the sentinel is never swallowed, the copied target is resolved by a
+    recursive call when it is itself a reference (9b25d89), `unvisitRef` always gets a non-nil value, a
+    path item that has a `$ref` and content of its own is left alone (the driver gives it no children);
+  * then the children of the value are walked (the walk is `LoadDoc.toNode`).
 Abstracted: the path algebra and the drill-down (`World.target`, computed by the driver from the JSON
 document with the generated struct table), JSON/YAML decoding, the second walk over the children of an
 already resolved value (every reference below it then has its value or is pending: no new behaviour).
@@ -44,6 +53,12 @@ def Node.kind : Node → Kind | .mk _ _ k _ _ _ => k
 def Node.ref : Node → Option Text | .mk _ _ _ r _ _ => r
 def Node.empty : Node → Bool | .mk _ _ _ _ e _ => e
 def Node.kids : Node → List Node | .mk _ _ _ _ _ ks => ks
+
+/-- what the model reads from the source (table `Gen.C20Loader`, `LoadDoc.codeCfg`) -/
+structure Cfg where
+  assertChecked : Kind → Bool    -- the backtrack callback of the kind's resolver asserts in comma-ok form
+  nilChecked    : Bool           -- drill-down: `cursor == nil || isNilPointer(cursor)` after every token
+  apGuarded     : Bool           -- drill-down: `pathPart == "additionalProperties" && c.Value != nil`
 
 /-- `var resolved XRef; *resolved = *cursor`: a new Go object with the content of the target wrapper -/
 def Node.copyAs : Node → Nat → Node | .mk _ d k r e ks, i => .mk i d k r e ks
@@ -72,11 +87,12 @@ inductive Site | assertKind | typedNil | drill
 
 structure St where
   value   : List Nat                     -- ids of wrappers whose `Value` is set
+  pathed  : List Nat                     -- ids of wrappers whose `refPath` is set
   inprog  : List Text                    -- `visitedRefs`
   pending : List (Text × Kind × Nat)     -- `backtrack`: text ↦ (kind asserted by the callback, wrapper to fill)
   deriving Repr, DecidableEq
 
-def St.init : St := ⟨[], [], []⟩
+def St.init : St := ⟨[], [], [], []⟩
 
 inductive Res
   | ok (s : St)
@@ -99,45 +115,54 @@ def stepKids (f : Node → St → Res) : List Node → St → Res
     | .ok st' => stepKids f ks st'
     | r => r
 
-/-- do all callbacks registered under `t` assert kind `k`? (`value.(*K)`) -/
-def callbacksOK (pending : List (Text × Kind × Nat)) (t : Text) (k : Kind) : Bool :=
-  pending.all (fun p => p.1 != t || p.2.1 == k)
+/-- does every callback registered under `t` survive a value of kind `k`? (`value.(*K)`: the callback's own
+    kind, or an assertion in comma-ok form) -/
+def callbacksOK (cfg : Cfg) (pending : List (Text × Kind × Nat)) (t : Text) (k : Kind) : Bool :=
+  pending.all (fun p => p.1 != t || p.2.1 == k || cfg.assertChecked p.2.1)
 
-/-- `unvisitRef(t, value)` with a non-nil value: run and drop the callbacks of `t`, forget `t` -/
-def unvisit (st : St) (t : Text) (id : Nat) : St :=
-  { value := st.value ++ [id] ++ (st.pending.filter (·.1 == t)).map (·.2.2),
+/-- the wrappers filled by the callbacks of `t` for a value of kind `k` (the others return without assigning) -/
+def filled (pending : List (Text × Kind × Nat)) (t : Text) (k : Kind) : List Nat :=
+  (pending.filter (fun p => p.1 == t && p.2.1 == k)).map (·.2.2)
+
+/-- `component.Value = …; component.setRefPath(…)`, then `unvisitRef(t, value)` with a non-nil value of
+    kind `k`: run and drop the callbacks of `t` (each sets `Value` and `refPath`), forget `t` -/
+def unvisit (st : St) (t : Text) (k : Kind) (id : Nat) : St :=
+  { value := st.value ++ [id] ++ filled st.pending t k,
+    pathed := st.pathed ++ [id] ++ filled st.pending t k,
     inprog := st.inprog.erase t,
     pending := st.pending.filter (·.1 != t) }
 
-/-- `unvisitRef(t, nil)`: callbacks are dropped without running -/
-def unvisitNil (st : St) (t : Text) : St :=
-  { st with inprog := st.inprog.erase t, pending := st.pending.filter (·.1 != t) }
+/-- `component.Value = nil; component.setRefPath(…)`, then `unvisitRef(t, nil)`: callbacks are dropped without running -/
+def unvisitNil (st : St) (t : Text) (id : Nat) : St :=
+  { st with pathed := st.pathed ++ [id], inprog := st.inprog.erase t, pending := st.pending.filter (·.1 != t) }
 
 /-- after the chain call on the resolved wrapper `n'` returned `r` -/
-def finish (n' : Node) (kind : Kind) (id : Nat) (t : Text) (r : Res) : Res :=
+def finish (cfg : Cfg) (n' : Node) (kind : Kind) (id : Nat) (t : Text) (r : Res) : Res :=
   match r with
   | .ok s2 =>
     -- `component.Value = resolved.Value`: set iff the resolved wrapper is a value or got its value
-    if n'.ref.isNone || s2.value.contains n'.id then
-      if callbacksOK s2.pending t kind then .ok (unvisit s2 t id) else .panic .assertKind
-    else .ok (unvisitNil s2 t)
+    -- (`*pathItem = resolved; unvisitRef(ref, pathItem)`: a path item is never nil here)
+    if kind == .pathItem || n'.ref.isNone || s2.value.contains n'.id then
+      if callbacksOK cfg s2.pending t kind then .ok (unvisit s2 t kind id) else .panic .assertKind
+    else .ok (unvisitNil s2 t id)
   -- `if err == errMUST<kind> { return nil }`: the sentinel of THIS resolver's kind — raised by the resolved
-  -- wrapper itself or by any wrapper of the same kind below it — is swallowed: no value, no unvisit
-  | .errMust k s2 => if k == kind then .ok s2 else .err
+  -- wrapper itself or by any wrapper of the same kind below it — is swallowed: no value, no location, no
+  -- unvisit. `resolvePathItemRef` returns every error of its recursive call as it is.
+  | .errMust k s2 => if k == kind && kind != .pathItem then .ok s2 else .errMust k s2
   | r => r
 
 /-- after the children of a single-file element were walked -/
-def finishSingle (kind : Kind) (id : Nat) (t : Text) (r : Res) : Res :=
+def finishSingle (cfg : Cfg) (kind : Kind) (id : Nat) (t : Text) (r : Res) : Res :=
   match r with
-  | .ok s2 => if callbacksOK s2.pending t kind then .ok (unvisit s2 t id) else .panic .assertKind
+  | .ok s2 => if callbacksOK cfg s2.pending t kind then .ok (unvisit s2 t kind id) else .panic .assertKind
   | r => r
 
-def resolve (w : World) : Nat → Node → St → Res
+def resolve (cfg : Cfg) (w : World) : Nat → Node → St → Res
   | 0, _, _ => .outOfFuel
   | fuel + 1, .mk id doc kind ref empty kids, st =>
-    if empty && kind != .example then .errMust kind st
+    if empty then .errMust kind st
     else match ref with
-      | none => stepKids (resolve w fuel) kids st
+      | none => stepKids (resolve cfg w fuel) kids st
       | some t =>
         if st.value.contains id then .ok st
         else if st.inprog.contains t then .ok { st with pending := st.pending ++ [(t, kind, id)] }
@@ -149,27 +174,24 @@ def resolve (w : World) : Nat → Node → St → Res
           | .drillPanic => .panic .drill
           | .single n' =>
             -- the element is decoded into the component itself; its children are walked by this call
-            finishSingle kind id t (stepKids (resolve w fuel) n'.kids st1)
+            finishSingle cfg kind id t (stepKids (resolve cfg w fuel) n'.kids st1)
           | .wrapper n' =>
+            -- `setPathRef(cursor)`: the target wrapper itself gets its location
+            let st2 : St := { st1 with pathed := st1.pathed ++ [n'.id] }
             -- the copy of an already resolved wrapper has its value: the chain call returns at once
-            if st1.value.contains n'.id then finishSingle kind id t (.ok st1)
-            else finish (n'.copyAs (copyId id n'.id)) kind id t (resolve w fuel (n'.copyAs (copyId id n'.id)) st1)
-          | .raw n' => finish (n'.copyAs (copyId id n'.id)) kind id t (resolve w fuel (n'.copyAs (copyId id n'.id)) st1)
+            if st2.value.contains n'.id then finishSingle cfg kind id t (.ok st2)
+            else finish cfg (n'.copyAs (copyId id n'.id)) kind id t (resolve cfg w fuel (n'.copyAs (copyId id n'.id)) st2)
+          | .raw n' => finish cfg (n'.copyAs (copyId id n'.id)) kind id t (resolve cfg w fuel (n'.copyAs (copyId id n'.id)) st1)
 
 /-- `ResolveRefsIn`: the component maps in the code's order, then the path items -/
-def load (w : World) (fuel : Nat) (roots : List Node) : Res :=
-  stepKids (resolve w fuel) roots St.init
+def load (cfg : Cfg) (w : World) (fuel : Nat) (roots : List Node) : Res :=
+  stepKids (resolve cfg w fuel) roots St.init
 
-/-! ### exclusion predicates (decidable) -/
+/-- the property on one outcome: the loader returned a document or an error -/
+def Res.normal : Res → Bool
+  | .ok _ => true | .errMust _ _ => true | .err => true | .panic _ => false | .outOfFuel => false
 
-mutual
-/-- every reference node below `n` has the kind `κ` assigns to its text -/
-def kindOK (κ : Text → Kind) : Node → Bool
-  | .mk _ _ kind ref _ kids => (match ref with | none => true | some t => kind == κ t) && kindOKs κ kids
-def kindOKs (κ : Text → Kind) : List Node → Bool
-  | [] => true
-  | k :: ks => kindOK κ k && kindOKs κ ks
-end
+/-! ### hypotheses of the theorems -/
 
 def Tgt.node? : Tgt → Option Node
   | .wrapper n => some n | .raw n => some n | .single n => some n | _ => none
@@ -177,11 +199,11 @@ def Tgt.node? : Tgt → Option Node
 def Tgt.panics : Tgt → Bool
   | .nilPtr => true | .drillPanic => true | _ => false
 
-/-- #12 excluded: one kind per reference text, in the roots and in everything a text can resolve to -/
-def KindConsistent (w : World) (κ : Text → Kind) (roots : List Node) : Prop :=
-  kindOKs κ roots = true ∧ ∀ d t k n, (w.target d t k).node? = some n → kindOK κ n = true
+/-- every assertion in a backtrack callback has the comma-ok form -/
+def Cfg.assertsChecked (cfg : Cfg) : Prop := ∀ k, cfg.assertChecked k = true
 
-/-- typed-nil targets and nil dereferences of the drill-down excluded -/
+/-- no drill-down ends at a typed nil pointer or dereferences nil (proved of the worlds built from
+    documents for a configuration with `nilChecked` and `apGuarded`: `LoadDoc.build_noNilTarget`) -/
 def NoNilTarget (w : World) : Prop := ∀ d t k, (w.target d t k).panics = false
 
 /-- well-formedness used by the termination bound: `target` is an error outside `texts`,
@@ -217,6 +239,31 @@ def validateDropping (g : Graph) (dropped : Nat → Nat → Bool) : Nat → Nat 
                               else validateDropping g dropped fuel c s) (g i) (stack ++ [i])
 
 def unvisitedCount (nodes stack : List Nat) : Nat := (nodes.filter (fun i => !stack.contains i)).length
+
+/-! ### partly guarded descent: `InternalizeRefs`
+
+`derefSchema`, `derefHeaders` and `derefPaths` consult a visited set (`isVisitedSchema`, `isVisitedHeader`,
+`isVisitedPathItem`, the last one since 1c81ad5); the other `deref…` functions do not. Objects are numbered;
+`guarded i` says whether the function entered for object `i` consults its visited set. -/
+
+/-- `none` = out of fuel; the visited set is global (threaded through everything) -/
+def gdescend (g : Graph) (guarded : Nat → Bool) : Nat → Nat → List Nat → Option (List Nat)
+  | 0, _, _ => none
+  | fuel + 1, i, vis =>
+    if guarded i then
+      (if vis.contains i then some vis else foldKids (gdescend g guarded fuel) (g i) (vis ++ [i]))
+    else foldKids (gdescend g guarded fuel) (g i) vis
+
+/-- along every edge out of an unguarded object the rank decreases (the unguarded `deref…` functions call
+    each other without a cycle: table obligation `deref_cycles_guarded`) -/
+def UnguardedRanked (g : Graph) (guarded : Nat → Bool) (rank : Nat → Nat) : Prop :=
+  ∀ i, guarded i = false → ∀ c ∈ g i, rank c < rank i
+
+/-- is the directed graph `edges` acyclic? (Kahn: repeatedly drop the vertices without outgoing edge) -/
+def acyclicB (edges : List (String × String)) : Bool :=
+  let step (es : List (String × String)) : List (String × String) :=
+    es.filter (fun e => es.any (fun f => f.1 == e.2))
+  (List.range (edges.length + 1)).foldl (fun es _ => step es) edges == []
 
 /-! ### unguarded descents: `IsEmpty`, `visitJSON` through compositions, `derefPaths` -/
 
